@@ -36,3 +36,19 @@ for nm, anchor in (('copy_ctor', 'deferred_event ( const deferred_event &'), ('m
     UNITS.append(Unit('backmp11.deferred_event.' + nm, ['C15', 'C20', 'C05', 'C13'], 'backmp11', special('deferred_event', anchor, ['m_seq_cnt', 'm_event']),
         'void de_copy(de_t* self, const de_t* other)', 'copy_mp11.spec.h', defines=['UNIT_DE=1'],
         compose=('EO_DEFAULT_MEMBER_INIT(self);\n' if ctor else '') + '@0', must_contain=EO_MEMBERS + [(CTY, 'uint16_t m_seq_cnt ;'), (CTY, 'Event m_event ;')], replay=['copy']))
+
+UNITS.append(Unit('backmp11.state_machine_base.constructor', ['C03', 'C07', 'C15', 'C13'], 'backmp11',
+    Part(SB, [], 'state_machine_base ( Args && ... args ) : front_end_t'),
+    'void base_construct(fsm_t* self)', 'copy_mp11.spec.h', defines=['UNIT_BASE_CTOR=1'],
+    xform=back_xform([], refparams=(), members=['m_root_sm', 'm_active_state_ids'], enums=ENUMS, drop=DROP2, pre_rewrites=[
+        dict(name='ASSERT-derived', pat='static_assert ( $*A ;', rep='', min=0),
+        dict(name='SCOPE-context', pat='! std :: is_same_v < context_t , no_context >', rep='0', min=0, max=1),
+        dict(name='SCOPE-context2', pat='! is_same_v < context_t , no_context >', rep='0', min=0, max=1),
+        dict(name='SCOPE-root', pat='is_same_v < root_sm_t , no_root_sm > || is_same_v < root_sm_t , derived_t >', rep='g_is_root', min=0, max=1),
+        dict(name='SCOPE-root2', pat='std :: is_same_v < root_sm_t , no_root_sm > || std :: is_same_v < root_sm_t , derived_t >', rep='g_is_root', min=0, max=1),
+        dict(name='TVAR-visitor', pat='using visitor_t = init_state_visitor < derived_t > ;', rep='', min=1, max=1),
+        dict(name='visitor-object', pat='visitor_t visitor { self ( ) } ;', rep='', min=1, max=1),
+        dict(name='visit-all', pat='visit_if < visit_mode :: all_recursive , visitor_t :: template predicate > ( visitor ) ;', rep='init_all_states ( self ) ;', min=0, max=1),
+        dict(name='root-pointer', pat='* m_root_sm = this ;', rep='self -> m_root_sm = self ;', min=0, max=1),
+        dict(name='TVAL-init-ids', pat='m_active_state_ids = value_array < initial_state_ids > ;', rep='memcpy ( self -> m_active_state_ids , g_init_ids16 , sizeof ( uint16_t ) * NR_CAP ) ;', min=0, max=1)]),
+    replay=['copy', 'order']))
